@@ -14,7 +14,12 @@ def decide(pid, tier, seed, prop, replay, t0, ck):
     # ---- 1. build phase (serialised by the lock taken in check.py)
     ok, msg = ck.regen_facts()
     obligations.append(("facts:extracted-from-/repo", ok, msg))
-    targets = ["Pw.Conformance." + c for c in prop.get("conformance", [])] + [prop["module"]]
+    tie_mods = ["Pw.Props." + m for m in prop.get("tie", [])]
+    tie_thms = list(prop.get("tie_theorems", []))
+    if tie_mods:
+        tok, tmsg = ck.regen_trans()
+        obligations.append(("trans:pkg/buffer translated from /repo (go/translate)", tok, tmsg))
+    targets = ["Pw.Conformance." + c for c in prop.get("conformance", [])] + [prop["module"]] + tie_mods
     bok, bout = ck.lake_build(targets)
     failed_mods = sorted(set(_failed_modules(bout))) if not bok else []
     obligations.append(("lean:build %s" % " ".join(targets), bok, "" if bok else _tail(bout)))
@@ -25,16 +30,21 @@ def decide(pid, tier, seed, prop, replay, t0, ck):
     obligations.append(("lean:no sorry/admit/axiom/native_decide/bv_decide/implemented_by/unsafe/maxHeartbeats 0", not hits, "\n".join(hits)))
     axioms = {}
     if bok:
-        aok, arep, axioms = ck.audit_axioms(prop["module"], prop["theorems"])
-        obligations.append(("lean:#print axioms ⊆ {propext, Quot.sound, Classical.choice} for %d theorems" % len(prop["theorems"]), aok, arep))
+        aok, arep, axioms = ck.audit_axioms(prop["module"], prop["theorems"] + tie_thms, tie_mods)
+        obligations.append(("lean:#print axioms ⊆ {propext, Quot.sound, Classical.choice} for %d theorems" % len(prop["theorems"] + tie_thms), aok, arep))
         for t in prop["theorems"]:
             obligations.append(("theorem:" + t, True, ""))
+        for t in tie_thms:
+            obligations.append(("tie-theorem:" + t, True, ""))
     else:
         for t in prop["theorems"]:
             obligations.append(("theorem:" + t, False, "module did not build"))
+        for t in tie_thms:
+            obligations.append(("tie-theorem:" + t, False, "module did not build"))
     if tier == "thorough" and bok:
-        r = ck.sh(["lake", "env", "leanchecker", prop["module"]], cwd=ck.LEAN)
-        obligations.append(("leanchecker %s" % prop["module"], r.returncode == 0, "" if r.returncode == 0 else _tail(r.stdout)))
+        for mod in [prop["module"]] + tie_mods:
+            r = ck.sh(["lake", "env", "leanchecker", mod], cwd=ck.LEAN)
+            obligations.append(("leanchecker %s" % mod, r.returncode == 0, "" if r.returncode == 0 else _tail(r.stdout)))
     ck.RACE = bool(prop.get("race"))
     hok, hout = ck.build_harness(race=ck.RACE)
     obligations.append(("go:harness builds against /repo working tree (-tags verif)", hok, "" if hok else _tail(hout)))
